@@ -473,13 +473,26 @@ def B(x):
     raise TypeError('not a condition: %r' % (type(x),))
 
 
+LAZY = os.environ.get('SYMEX_EAGER_SIMPLIFY', '') == ''
+
+
 class SymBool:
-    __slots__ = ('e',)
+    __slots__ = ('e', '_simp')
 
     def __init__(self, e):
-        self.e = z3.simplify(e)
+        # terms are simplified when (and if) they are branched on, not when they are built:
+        # most comparison terms only ever become operands of larger terms
+        if LAZY:
+            self.e = e
+            self._simp = False
+        else:
+            self.e = z3.simplify(e)
+            self._simp = True
 
     def __bool__(self):
+        if not self._simp:
+            self.e = z3.simplify(self.e)
+            self._simp = True
         if z3.is_true(self.e):
             return True
         if z3.is_false(self.e):
@@ -541,7 +554,7 @@ class SymBool:
     __radd__ = __add__
 
     def __repr__(self):
-        return '<SymBool %s>' % (str(self.e)[:60],)
+        return '<SymBool>'
 
 
 def sbool(x):
@@ -647,7 +660,7 @@ class SymInt:
     def __bool__(self): return bool(SymBool(self.e != 0))
     def __index__(self): return concretize_int(self)
     def __int__(self): return concretize_int(self)
-    def __repr__(self): return '<SymInt %s>' % (str(self.e)[:40],)
+    def __repr__(self): return '<SymInt>'
 
     def __format__(self, spec):
         return make_atom(self, spec)
@@ -799,7 +812,7 @@ class SymFloat:
             return self * self
         raise ShimGap('pow %r' % (k,))
 
-    def __repr__(self): return '<SymFloat %s>' % (str(self.v)[:40],)
+    def __repr__(self): return '<SymFloat>'
 
     def __format__(self, spec):
         return '<float>'
